@@ -269,7 +269,7 @@ U("evts.unstash_real", src="units/evts_real.c", harness="h_unstash_real", plain=
 MODC = ABS + ["contracts/cb.contracts.h", "contracts/mod.contracts.h"]
 U("mod.stop", src="units/mod_unit.c", harness="h_stop", enforce="stop",
   replace=["manage_srcs", "m_mod_is", "reset_module", "optional_hook", "tell_system_pubsub_msg"], logctx="CORE",
-  props=["C01", "C19", "C03", "C09", "C04"], contract_files=MODC, native=False, timeout=300, min_obligations=30)
+  props=["C01", "C19", "C03", "C09", "C04", "C07"], contract_files=MODC, native=False, timeout=300, min_obligations=30)
 U("mod.start", src="units/mod_unit.c", harness="h_start", enforce="start",
   replace=["init_pubsub_fd", "manage_srcs", "optional_hook", "tell_system_pubsub_msg", "stop"], logctx="CORE",
   props=["C01", "C19", "C03", "C04"], contract_files=MODC, native=False, timeout=300, min_obligations=30)
@@ -536,7 +536,7 @@ U("ps.tell_subscribers", src="units/ps_unit.c", harness="h_tell_subscribers", en
   replace=["m_map_itr_new", "m_map_itr_next", "m_map_itr_get_data", "m_mod_is", "fetch_sub", "tell_if"], props=["C02", "C04"], contract_files=SUBSC, native=False, timeout=300, min_obligations=30,
   must_have=["invariant after step"])
 U("ps.fetch_sub", src="units/ps_unit.c", harness="h_fetch_sub", enforce="fetch_sub", loop_contracts=True, defines=["V_FETCHSUB_UNIT"], logctx="CORE",
-  replace=["m_map_get", "m_map_itr_new", "m_map_itr_next", "m_map_itr_get_data", "v_regexec"], props=["C02", "C04"], contract_files=SUBSC, native=False, timeout=900, min_obligations=30,
+  replace=["m_map_get", "m_map_itr_new", "m_map_itr_next", "m_map_itr_get_data", "v_regexec"], props=["C02", "C04", "C19"], contract_files=SUBSC, native=False, timeout=900, min_obligations=30,
   must_have=["invariant after step"])
 U("thpool.free", src="units/thpool_unit.c", harness="h_pool_free", enforce="m_thpool_free", defines=["V_POOL_FREE"], logctx="THPOOL",
   replace=["wait_pool", "v_cond_destroy", "v_mutex_destroy", "m_queue_free", "m_list_free"], props=["C06", "C04"], contract_files=THP, native=False, timeout=300, min_obligations=20,
@@ -609,10 +609,9 @@ U("thpool.new", src="units/thpool_unit.c", harness="h_pool_new", enforce="m_thpo
   replace=["m_list_new", "m_queue_new", "v_mutex_init", "v_cond_init", "add_threads", "m_thpool_free"], props=["C06", "C04"], contract_files=THP, native=False, timeout=300, min_obligations=20)
 
 PROPS["C06"]["level_text"] += (" add_threads() (loop contract, any number of workers): every created worker runs the pool loop of this pool and is recorded in the thread list exactly once, creation stops "
-                               "at the first failure, which leaves no record; m_thpool_new(): a pool comes back fully built with its configured size and flags (workers spawned unless lazy) or is torn down and not returned.")
+                               "at the first failure -- a refused creation (the slot is given back) or a missing slot (ENOMEM, no thread is created on it; fix 9141b18) at any symbolic attempt --, which leaves no record; m_thpool_add() of a lazy pool refuses the task when the worker it needed could not be spawned; m_thpool_new(): a pool comes back fully built with its configured size and flags (workers spawned unless lazy) or is torn down and not returned.")
 PROPS["C06"]["not_decided"] = ["interleaving semantics beyond the lock-discipline argument; deadlock freedom / lost wake-ups (liveness)",
-                               "detached pools are a recorded known finding",
-                               "allocation failure of a thread slot in add_threads (passed on to pthread_create unchecked)"]
+                               "detached pools are a recorded known finding"]
 U("ps.unsubscribe", src="units/ps_unit.c", harness="h_unsubscribe", enforce="m_mod_ps_unsubscribe", defines=["V_UNSUB_UNIT"], logctx="CORE",
   replace=["m_ctx", "m_mod_is", "fetch_ms", "m_map_remove", "m_map_len", "m_map_free"], props=["C09", "C15", "C18", "C04"], contract_files=SUBSC, native=False, timeout=300, min_obligations=20)
 
@@ -643,3 +642,11 @@ PROPS["C20"]["not_decided"] = ["pid sources (descriptor made through variadic sy
 PROPS["C07"]["not_decided"] = ["that m_map_iterate(ctx_destroy_mods) reaches every module (C05 bounded)",
                                "allocation failure of the module table inside ctx_new (returns 0 without a context: seen, not under an obligation -- allocation failure is not modelled in the core units)"]
 PROPS["C07"]["level_text"] += " ctx_dtor(): module table, poll plugin data and (when owned) name / user data are released exactly once."
+
+# ---- rounds 6-7 (continuation session)
+PROPS["C01"]["not_decided"].append("that a poll batch made only of context-private events (tick, fs request) also ends with an evaluation pass of the IDLE modules (seed C01-ctx-private-events-not-counted-skip-evaluation is NOT reported)")
+PROPS["C19"]["level_text"] += (" fetch_sub() (loop contract, any number of subscriptions) is judged for C19 too, on a user topic or a system topic: a system notification reaches pattern subscribers through the same"
+                               " exact-then-first-matching-pattern lookup as any topic.")
+PROPS["C04"]["level_text"] += (" m_mod_ps_subscribe() on the real code with the first and/or second allocation of the call failing: every compiled pattern is owned by the stored subscription or released (fix 6ed9a0f);"
+                               " add_threads(): no thread is ever created on a slot that could not be allocated (fix 9141b18); register_mod_src(): a candidate the set accepted is never released by the caller.")
+PROPS["C07"]["level_text"] += " stop() is judged for C07 too: a RUNNING or PAUSED module is stopped through its stop callback, exactly once."
